@@ -55,6 +55,8 @@ def gen_scenario(rng):
         "cfg_commit": rng.random() < 0.75, "cfg_tag": rng.random() < 0.5, "cfg_push": rng.random() < 0.5,
         "commit": tri(), "tag_commit": tri(), "push": tri(),
         "pre": hook(), "post": hook(), "pre_via_cli": rng.random() < 0.3, "post_via_cli": rng.random() < 0.3,
+        # HOW a failing hook ends (not seen by the model: any failure is a failure): exit statuses and death by a signal
+        "fail_mode": rng.choice(["exit7", "exit1", "exit255", "exit126", "term", "kill", "segv"]),
         "cfg_branch": rng.random() < 0.2, "cli_branch": rng.choice([None, None, None, True, False]),
         "tag_msg_empty": rng.random() < 0.4,
         "dry": rng.random() < 0.2, "fetch": rng.random() < 0.5, "ignore_vcs_tag": rng.random() < 0.25,
@@ -135,7 +137,7 @@ def run_impl(sc):
             os.rmdir(pr.path("." + sc["kind"]))
         for which in ("pre", "post"):
             if sc[which] != "absent":
-                pr.add_hook("%s_hook.sh" % which, fail=(sc[which] == "fail"))
+                pr.add_hook("%s_hook.sh" % which, fail=(sc[which] == "fail"), mode=sc.get("fail_mode", "exit7"))
         if sc["remote"] == "branch":
             pr.fake_set("branches", "* main 1a2b3c4 [origin/main] msg\n  other 99aa [up/other] x\n")
         else:
